@@ -484,6 +484,12 @@ ResetClausesW(s, e, t, connS, connT) ==
         okR /\ e.mode = "soft" => T.idx = S.idx /\ T.wt = S.wt),
     Cl("C08_Mixed", {"C08", "C05"}, okR /\ e.mode \in {"mixed", "default"},
         okR /\ e.mode \in {"mixed", "default"} => T.wt = S.wt /\ IdxPairs(T.idx) = snap),
+    Cl("C08_AsStaged", {"C08"}, okR /\ e.mode \in {"mixed", "default", "hard"} /\ IdxCanonical(S.idx),
+        \* "equal to the snapshot" as a staging area, not as a bag of records: in the canonical order every lookup relies on,
+        \* and read back by ls-files as it is stored
+        okR /\ e.mode \in {"mixed", "default", "hard"} /\ IdxCanonical(S.idx) =>
+            /\ IdxCanonical(T.idx)
+            /\ (HasObs(t, "ls") /\ T.idx.ok => t.obs.ls.res = "ok" /\ t.obs.ls.ents = T.idx.ents)),
     Cl("C08_Hard", {"C08", "C05"}, okR /\ e.mode = "hard",
         okR /\ e.mode = "hard" =>
             /\ IdxPairs(T.idx) = snap
